@@ -182,7 +182,10 @@ def puml_probe(w, S, M, variant, title_tag, table=None):
         del ob.tag
     vcls = [type(o).__name__ if o is not None else "" for o in w.O[1:]]
     return {"kind": "puml", "S": S, "M": list(M), "vcls": vcls, "opts": opts, "variant": variant,
-            "title_tag": bool(title_tag), "res": res, "text": text,
+            "title_tag": bool(title_tag), "res": res,
+            # with the default show_attrs every dir() entry of every vertex is printed (docstrings included): tens of
+            # kilobytes per rendering, parsed here in the worker; only the head travels on (samples, replay files)
+            "text": None if text is None else text[:1500] + ("..." if len(text) > 1500 else ""),
             "grown": [] if table is None else list(table["hist"])}     # the renders made with this table object, this one last
 
 
